@@ -59,7 +59,7 @@ fn rounding_level_lattices() -> BoxedStrategy<Case> {
         .boxed()
 }
 
-fn strategy(_tier: Tier) -> BoxedStrategy<Case> {
+pub fn strategy(_tier: Tier) -> BoxedStrategy<Case> {
     use proptest::prelude::*;
     let base = gen::case_strategy(GenOpts { max_n: 64, big_n_weight: 1, fams: DEGENERATE_FAMS.to_vec(), masks: MaskMode::Mixed, max_offset_log2: 20, ..GenOpts::default() });
     prop_oneof![3 => base, 1 => rounding_level_lattices()].boxed()
